@@ -81,7 +81,12 @@ pub fn payloads(ix: &Index, role: &Role) -> Vec<Option<String>> {
 }
 
 pub fn run(ix: &Index, role: &Role, payload: Option<&str>, mode: CollMode, seed: &[(String, bool)]) -> RoleRun {
+    run_opt(ix, role, payload, mode, seed, false)
+}
+/// `collapse_bounds`: follow only the "continue" branch of every bound(...) level and of the parameter-mention test
+pub fn run_opt(ix: &Index, role: &Role, payload: Option<&str>, mode: CollMode, seed: &[(String, bool)], collapse_bounds: bool) -> RoleRun {
     let mut ev = mk_ev(ix);
+    if collapse_bounds { ev.assume_true_suffix = vec![".default".into()]; }
     if let CollMode::InnerUnrolled(n) = mode { ev.inner_unroll = Some(n); }
     let outs = run_role(&ev, ix, role, payload, mode, seed);
     let mut paths = Vec::new();
